@@ -35,7 +35,12 @@ def run(run):
                 sub = os.path.join(*[rng.choice(["a", "b", "c"]) for _ in range(rng.randint(1, 2))]) if rng.random() < 0.5 else ""
                 rel = os.path.join(sub, "r%02d_%s.cql" % (i, rng.choice(["x", "y", "z"])))
                 bad = rng.random() < 0.3
-                if bad:
+                if bad and rng.random() < 0.35:
+                    # a rule file with nothing in it (an empty placeholder, blanks only, a header without a query)
+                    text = rng.choice(["", "\n", "   \n\t\n", "/**\n * @id empty/header-only\n */\n"])
+                    meta = {"id": "empty/header-only"} if "@id" in text else {}
+                    rules.append((rel, text, meta, None))
+                elif bad:
                     hl, meta = GR.header(rng, "\n")
                     text = "\n".join(hl + [rng.choice(BAD)]) + "\n"
                     rules.append((rel, text, meta, None))
